@@ -156,7 +156,6 @@ def _requested(spec, kind, lists):
 
 def run_call(spec, call, oracle=None, stats=None):
     """-> list of (key, text).  Builds a fresh model, performs the call, compares with the exact oracle."""
-    import cobra
     from cobra import flux_analysis as FA
     from cobra.flux_analysis.variability import find_essential_genes, find_essential_reactions
     oracle = oracle or Oracle(spec)
@@ -267,7 +266,6 @@ def run_call(spec, call, oracle=None, stats=None):
             if bad:
                 out.append((f"{fn}:moma:reference", bad))
                 return out
-    wt_dir = spec["direction"]
     for ids, g, s in zip(got_rows, growth, status):
         off = oracle.off(kind, ids)
         if method == "fba":
@@ -379,7 +377,7 @@ def run(tier, seed):
     import multiprocessing as mp
     t0 = time.time()
     rng = random.Random(seed)
-    n_models = 180 if tier == "quick" else 1500
+    n_models = 180 if tier == "quick" else 1200
     tasks = [(i, rng.randrange(10 ** 9), tier) for i in range(n_models)]
     # non-daemonic workers (the code under test starts its own pools inside them)
     with ProcessPoolExecutor(min(16, os.cpu_count() or 1), mp_context=mp.get_context("fork")) as ex:
